@@ -14,6 +14,8 @@ Lemma open_sites_ok : forall st, In st sites -> open_ok st = true.
 Proof. apply all_sites. vm_compute. reflexivity. Qed.
 Lemma edges_ok : forall st, In st sites -> acq_site_ok st = true.
 Proof. apply all_sites. vm_compute. reflexivity. Qed.
+Lemma plans_match : forall st, In st sites -> paths_match st = true.
+Proof. apply all_sites. vm_compute. reflexivity. Qed.
 Lemma calls_not_under_leaf : forall st, In st sites -> call_leaf_ok st = true.
 Proof. apply all_sites. vm_compute. reflexivity. Qed.
 Lemma guarded_ok : forall st, In st sites -> access_ok st = true.
@@ -155,7 +157,7 @@ Qed.
 (** the call a site makes, and the plan of the thread fragment that reaches it, for a valuation of the symbolic nodes *)
 Definition site_call (rho : snode -> node) (st : site) : option ccall :=
   match s_kind st with
-  | KCall m recv entry => Some (mkCall m (rho recv) (option_map rho entry) (vh rho (s_held st)))
+  | KCall m recv entry => Some (mkCall m (rho recv) (option_map rho entry) (vh rho (pheld (s_path st))))
   | _ => None
   end.
 
@@ -167,7 +169,7 @@ Definition call_plan (c : ccall) : list (act clock ccall) := bracket (c_guard c)
 (** every backend call site of the table provides what the documentation demands, whatever the nodes are *)
 Theorem site_calls_provide : forall st, In st sites -> forall rho c, site_call rho st = Some c -> cprovides c.
 Proof.
-  intros st Hin rho c Hc. pose proof (classes_ok st Hin) as K. unfold call_ok in K. unfold site_call in Hc.
+  intros st Hin rho c Hc. pose proof (classes_ok st Hin) as K. unfold call_ok, eheld, carries in K. unfold site_call in Hc.
   destruct (s_kind st) as [| m recv entry | | | |] eqn:EK; try discriminate. inversion Hc; subst c; clear Hc.
   unfold cprovides; cbn. destruct (class_of m); auto.
   - apply andb_true_iff in K. destruct K as [K1 K2]. apply has_In in K1. destruct K1 as [w K1]. split.
@@ -216,11 +218,12 @@ Notation coplan := (oplan clock clock_eqb ccall crank RenameMu cchildish).
 
 Section Sound.
   Variable rho : snode -> node.
-  Variable facts : list (snode * snode).
-  (** the valuation respects the names: a node written as a descendant is strictly deeper ... *)
-  Hypothesis rho_below : forall a b, below a b = true -> length (rho a) < length (rho b).
-  (** ... and nodes the code compared and found different are different *)
-  Hypothesis rho_facts : forall a b, In (a, b) facts -> rho a <> rho b.
+  Variable D : snode -> Prop.     (* the symbolic nodes the plan mentions *)
+  (** the valuation respects the names it is asked about: a node written as a descendant is strictly deeper *)
+  Hypothesis rho_below : forall a b, D a -> D b -> below a b = true -> length (rho a) < length (rho b).
+
+  Definition lock_in_D (l : slock) : Prop := forall n, snode_of l = Some n -> D n.
+  Definition held_in_D (h : list (slock * bool)) : Prop := forall x, In x h -> lock_in_D (fst x).
 
   Lemma crank_class : forall l, fst (crank (vl rho l)) = sclass l.
   Proof. destruct l; reflexivity. Qed.
@@ -236,65 +239,314 @@ Section Sound.
     - destruct l; cbn in *; auto; congruence.
   Qed.
 
-  Lemma distinct_sound : forall a b, known_distinct facts a b = true -> rho a <> rho b.
+  Section Facts.
+    Variable facts : list (snode * snode).
+    (** nodes the code compared and found different are different *)
+    Hypothesis rho_facts : forall a b, In (a, b) facts -> rho a <> rho b.
+
+    Lemma distinct_sound : forall a b, D a -> D b -> known_distinct facts a b = true -> rho a <> rho b.
+    Proof.
+      intros a b Da Db H. unfold known_distinct in H. apply orb_true_iff in H. destruct H as [H|H].
+      - apply orb_true_iff in H. destruct H as [H|H]; apply rho_below in H; auto; intro E; rewrite E in H; lia.
+      - apply existsb_exists in H. destruct H as [[x y] [Hin H]]. cbn in H.
+        apply orb_true_iff in H. destruct H as [H|H]; apply andb_true_iff in H; destruct H as [H1 H2];
+          apply snode_eqb_eq in H1; apply snode_eqb_eq in H2; subst.
+        + apply rho_facts; auto.
+        + intro E. symmetry in E. revert E. apply rho_facts; auto.
+    Qed.
+
+    Theorem sacq_sound : forall h l, held_in_D h -> lock_in_D l -> sacq_ok facts h l = true -> cacq_ok (vh rho h) (vl rho l).
+    Proof.
+      intros h l DH DL H. unfold sacq_ok in H. apply andb_true_iff in H. destruct H as [H H4].
+      unfold acq_ok. rewrite gateW_agree.
+      assert (IV : forall l' w', In (l', w') (vh rho h) -> cchildish l' = true -> exists wg, In (RenameMu, wg) (vh rho h)).
+      { intros l' w' Hin Hc. apply orb_true_iff in H4. destruct H4 as [N|G].
+        - exfalso. apply negb_true_iff in N. unfold vh in Hin. apply in_map_iff in Hin. destruct Hin as [[x wx] [E Hx]].
+          inversion E; subst. assert (existsb (fun x => is_child (fst x)) h = true).
+          { apply existsb_exists. exists (x, w'). split; auto. destruct x; cbn in Hc; try discriminate; auto. }
+          congruence.
+        - apply has_In in G. destruct G as [wg G]. exists wg. apply (vh_in rho _ _ _ G). }
+      destruct (hasW h SRename) eqn:EG.
+      - apply andb_true_iff in H. destruct H as [Hc Hd]. rewrite forallb_forall in Hd. split; [|split; auto].
+        + intro Hin. apply in_map_iff in Hin. destruct Hin as [[l' w'] [E Hin]]. cbn in E.
+          unfold vh in Hin. apply in_map_iff in Hin. destruct Hin as [[x wx] [E2 Hx]]. cbn in E2.
+          assert (EX : vl rho x = vl rho l) by congruence. clear E E2.
+          specialize (Hd _ Hx). cbn in Hd. destruct l; cbn in Hc; try discriminate.
+          destruct x; cbn in EX; try discriminate. inversion EX as [E3]. revert E3.
+          apply distinct_sound; auto; try (apply (DH _ Hx); reflexivity); try (apply DL; reflexivity).
+        + destruct l; cbn in Hc; try discriminate. reflexivity.
+      - rewrite forallb_forall in H.
+        assert (R : forall x wx, In (x, wx) h -> rlt (crank (vl rho x)) (crank (vl rho l))).
+        { intros x wx Hx. specialize (H _ Hx). cbn in H. unfold rlt. rewrite !crank_class.
+          apply orb_true_iff in H. destruct H as [H|H].
+          - apply Nat.ltb_lt in H. left; auto.
+          - apply andb_true_iff in H. destruct H as [Hc Hb]. apply Nat.eqb_eq in Hc. right. split; auto.
+            destruct x, l; cbn in Hb; try discriminate; cbn; apply rho_below; auto;
+              try (apply (DH _ Hx); reflexivity); try (apply DL; reflexivity). }
+        split; [|split; auto].
+        + intro Hin. apply in_map_iff in Hin. destruct Hin as [[l' w'] [E Hin]]. cbn in E.
+          unfold vh in Hin. apply in_map_iff in Hin. destruct Hin as [[x wx] [E2 Hx]]. cbn in E2.
+          assert (EX : vl rho x = vl rho l) by congruence. clear E E2.
+          specialize (R _ _ Hx). rewrite EX in R. revert R. apply rlt_irrefl.
+        + intros l' w' Hin. unfold vh in Hin. apply in_map_iff in Hin. destruct Hin as [[x wx] [E2 Hx]]. inversion E2; subst.
+          eapply R; eauto.
+    Qed.
+  End Facts.
+
+  (** ** plans: the concrete thread fragment of a symbolic plan, and what it holds *)
+  Definition vact (a : pact) : act clock ccall :=
+    match a with PA l w _ => Acq (vl rho l) w | PR l => Rel (vl rho l) end.
+  Definition vacts (p : list pact) : list (act clock ccall) := map vact p.
+
+  Fixpoint path_facts (p : list pact) : list (snode * snode) :=
+    match p with [] => [] | PA _ _ f :: r => f ++ path_facts r | PR _ :: r => path_facts r end.
+
+  (** the valuation does not identify two locks held together (consequence of the discipline, kept as invariant) *)
+  Definition nodup_h (h : list (slock * bool)) := NoDup (map fst (vh rho h)).
+
+  Lemma nodup_inj : forall h x y, nodup_h h -> In x h -> In y h -> vl rho (fst x) = vl rho (fst y) -> x = y.
   Proof.
-    intros a b H. unfold known_distinct in H. apply orb_true_iff in H. destruct H as [H|H].
-    - apply orb_true_iff in H. destruct H as [H|H]; apply rho_below in H; intro E; rewrite E in H; lia.
-    - apply existsb_exists in H. destruct H as [[x y] [Hin H]]. cbn in H.
-      apply orb_true_iff in H. destruct H as [H|H]; apply andb_true_iff in H; destruct H as [H1 H2];
-        apply snode_eqb_eq in H1; apply snode_eqb_eq in H2; subst.
-      + apply rho_facts; auto.
-      + intro E. symmetry in E. revert E. apply rho_facts; auto.
+    unfold nodup_h. induction h as [|z h IH]; intros x y N Hx Hy E; [destruct Hx|].
+    cbn in N. inversion N as [|? ? Hn N']; subst.
+    destruct Hx as [->|Hx]; destruct Hy as [->|Hy]; auto.
+    - exfalso. apply Hn. rewrite E. apply in_map_iff. exists (vl rho (fst y), snd y). split; auto.
+      unfold vh. apply in_map_iff. exists y. auto.
+    - exfalso. apply Hn. rewrite <- E. apply in_map_iff. exists (vl rho (fst x), snd x). split; auto.
+      unfold vh. apply in_map_iff. exists x. auto.
   Qed.
 
-  Theorem sacq_sound : forall h l, sacq_ok facts h l = true -> cacq_ok (vh rho h) (vl rho l).
+  Lemma filter_commute : forall l h, (forall x, In x h -> vl rho (fst x) = vl rho l -> fst x = l) ->
+    remove_lock clock clock_eqb (vl rho l) (vh rho h) = vh rho (filter (fun x => negb (slock_eqb l (fst x))) h).
   Proof.
-    intros h l H. unfold sacq_ok in H. apply andb_true_iff in H. destruct H as [H H4].
-    unfold acq_ok. rewrite gateW_agree.
-    assert (IV : forall l' w', In (l', w') (vh rho h) -> cchildish l' = true -> exists wg, In (RenameMu, wg) (vh rho h)).
-    { intros l' w' Hin Hc. apply orb_true_iff in H4. destruct H4 as [N|G].
-      - exfalso. apply negb_true_iff in N. unfold vh in Hin. apply in_map_iff in Hin. destruct Hin as [[x wx] [E Hx]].
-        inversion E; subst. assert (existsb (fun x => is_child (fst x)) h = true).
-        { apply existsb_exists. exists (x, w'). split; auto. destruct x; cbn in Hc; try discriminate; auto. }
-        congruence.
-      - apply has_In in G. destruct G as [wg G]. exists wg. apply (vh_in rho _ _ _ G). }
-    destruct (hasW h SRename) eqn:EG.
-    - apply andb_true_iff in H. destruct H as [Hc Hd]. rewrite forallb_forall in Hd. split; [|split; auto].
-      + intro Hin. apply in_map_iff in Hin. destruct Hin as [[l' w'] [E Hin]]. cbn in E.
-        unfold vh in Hin. apply in_map_iff in Hin. destruct Hin as [[x wx] [E2 Hx]]. cbn in E2.
-        assert (EX : vl rho x = vl rho l) by congruence. clear E E2.
-        specialize (Hd _ Hx). cbn in Hd. destruct l; cbn in Hc; try discriminate.
-        destruct x; cbn in EX; try discriminate. inversion EX as [E3]. revert E3. apply distinct_sound; auto.
-      + destruct l; cbn in Hc; try discriminate. reflexivity.
-    - rewrite forallb_forall in H.
-      assert (R : forall x wx, In (x, wx) h -> rlt (crank (vl rho x)) (crank (vl rho l))).
-      { intros x wx Hx. specialize (H _ Hx). cbn in H. unfold rlt. rewrite !crank_class.
-        apply orb_true_iff in H. destruct H as [H|H].
-        - apply Nat.ltb_lt in H. left; auto.
-        - apply andb_true_iff in H. destruct H as [Hc Hb]. apply Nat.eqb_eq in Hc. right. split; auto.
-          destruct x, l; cbn in Hb; try discriminate; cbn; apply rho_below; auto. }
-      split; [|split; auto].
-      + intro Hin. apply in_map_iff in Hin. destruct Hin as [[l' w'] [E Hin]]. cbn in E.
-        unfold vh in Hin. apply in_map_iff in Hin. destruct Hin as [[x wx] [E2 Hx]]. cbn in E2.
-        assert (EX : vl rho x = vl rho l) by congruence. clear E E2.
-        specialize (R _ _ Hx). rewrite EX in R. revert R. apply rlt_irrefl.
-      + intros l' w' Hin. unfold vh in Hin. apply in_map_iff in Hin. destruct Hin as [[x wx] [E2 Hx]]. inversion E2; subst.
-        eapply R; eauto.
+    intros l h. induction h as [|x h IH]; intros A; cbn; auto.
+    assert (A' : forall y, In y h -> vl rho (fst y) = vl rho l -> fst y = l) by (intros; apply A; auto; right; auto).
+    unfold clock_eqb at 1. destruct (clock_eq_dec (vl rho l) (vl rho (fst x))) as [E|E]; cbn.
+    - assert (fst x = l) by (apply A; auto; left; auto). subst l.
+      rewrite (proj2 (slock_eqb_eq (fst x) (fst x)) eq_refl). cbn. apply IH; auto.
+    - destruct (slock_eqb l (fst x)) eqn:S.
+      + apply slock_eqb_eq in S. subst l. congruence.
+      + cbn. f_equal. apply IH; auto.
+  Qed.
+
+  Lemma nodup_filter : forall f h, nodup_h h -> nodup_h (filter f h).
+  Proof.
+    unfold nodup_h. intros f. induction h as [|x h IH]; intros N; cbn; auto.
+    cbn in N. inversion N as [|? ? Hn N']; subst. destruct (f x); cbn; auto.
+    constructor; auto. intro Hin. apply Hn. apply in_map_iff in Hin. destruct Hin as [[c w] [E Hin]].
+    unfold vh in Hin. apply in_map_iff in Hin. destruct Hin as [y [Ey Hy]]. apply filter_In in Hy. destruct Hy as [Hy _].
+    apply in_map_iff. exists (c, w). split; auto. unfold vh. apply in_map_iff. exists y. auto.
+  Qed.
+
+  Lemma release_alias_free : forall h l, nodup_h h -> has h l = true ->
+    forall x, In x h -> vl rho (fst x) = vl rho l -> fst x = l.
+  Proof.
+    intros h l N H x Hx E. apply has_In in H. destruct H as [w Hl].
+    assert (x = (l, w)) by (eapply nodup_inj; eauto). subst. reflexivity.
+  Qed.
+
+  Fixpoint path_in_D (p : list pact) : Prop :=
+    match p with [] => True | PA l _ _ :: r => lock_in_D l /\ path_in_D r | PR _ :: r => path_in_D r end.
+
+  Lemma held_in_D_cons : forall h l w, held_in_D h -> lock_in_D l -> held_in_D ((l, w) :: h).
+  Proof. intros h l w H L x [<-|Hx]; auto. Qed.
+  Lemma held_in_D_filter : forall f h, held_in_D h -> held_in_D (filter f h).
+  Proof. intros f h H x Hx. apply filter_In in Hx. destruct Hx; auto. Qed.
+
+  (** C16: a permitted symbolic plan is a plan permitted by discipline D, for the continuation [tail] *)
+  Lemma path_oplan : forall p h tail, path_ok h p = true -> nodup_h h -> held_in_D h -> path_in_D p ->
+    (forall a b, In (a, b) (path_facts p) -> rho a <> rho b) ->
+    (nodup_h (pheld_from h p) -> coplan (vh rho (pheld_from h p)) tail) ->
+    coplan (vh rho h) (vacts p ++ tail).
+  Proof.
+    induction p as [|a p IH]; intros h tail K N DH DP F T; cbn in *; auto.
+    destruct a as [l w f|l]; cbn in *.
+    - apply andb_true_iff in K. destruct K as [K1 K2]. destruct DP as [DL DP].
+      assert (A : cacq_ok (vh rho h) (vl rho l)).
+      { apply sacq_sound with (facts := f); auto. intros a b Hab. apply F. apply in_or_app. left; auto. }
+      split; auto. apply (IH ((l, w) :: h)); auto.
+      + unfold nodup_h. cbn. constructor; auto. destruct A as [A _]. exact A.
+      + apply held_in_D_cons; auto.
+      + intros a b Hab. apply F. apply in_or_app. right; auto.
+    - apply andb_true_iff in K. destruct K as [K1 K2].
+      rewrite (filter_commute l h (release_alias_free h l N K1)).
+      apply IH; auto. apply nodup_filter; auto. apply held_in_D_filter; auto.
+  Qed.
+
+  (** what the model's thread holds after the fragment equals the recomputed symbolic set *)
+  Fixpoint mrun (h : list (clock * bool)) (acts : list (act clock ccall)) : list (clock * bool) :=
+    match acts with
+    | [] => h
+    | Acq l w :: r => mrun ((l, w) :: h) r
+    | Rel l :: r => mrun (remove_lock clock clock_eqb l h) r
+    | _ :: r => mrun h r
+    end.
+
+  Lemma path_mrun : forall p h, path_ok h p = true -> nodup_h h -> held_in_D h -> path_in_D p ->
+    (forall a b, In (a, b) (path_facts p) -> rho a <> rho b) ->
+    mrun (vh rho h) (vacts p) = vh rho (pheld_from h p).
+  Proof.
+    induction p as [|a p IH]; intros h K N DH DP F; cbn in *; auto.
+    destruct a as [l w f|l]; cbn in *.
+    - apply andb_true_iff in K. destruct K as [K1 K2]. destruct DP as [DL DP].
+      assert (A : cacq_ok (vh rho h) (vl rho l)).
+      { apply sacq_sound with (facts := f); auto. intros a b Hab. apply F. apply in_or_app. left; auto. }
+      apply (IH ((l, w) :: h)); auto.
+      + unfold nodup_h. cbn. constructor; auto. destruct A as [A _]. exact A.
+      + apply held_in_D_cons; auto.
+      + intros a b Hab. apply F. apply in_or_app. right; auto.
+    - apply andb_true_iff in K. destruct K as [K1 K2].
+      rewrite (filter_commute l h (release_alias_free h l N K1)).
+      apply IH; auto. apply nodup_filter; auto. apply held_in_D_filter; auto.
   Qed.
 End Sound.
 
-(** every acquisition site of the table, with all the requests on the way to it, is permitted under every respectful valuation *)
-Theorem site_requests_sound : forall st, In st sites -> forall l w, s_kind st = KAcq l w ->
-  forall rho, (forall a b, below a b = true -> length (rho a) < length (rho b)) ->
-              (forall a b, In (a, b) (s_facts st) -> rho a <> rho b) ->
-  cacq_ok (vh rho (s_held st)) (vl rho l).
+(** releasing everything held ends the plan *)
+Definition rel_all (h : list (clock * bool)) : list (act clock ccall) := map (fun x => Rel (fst x)) h.
+
+Lemma oplan_rel_all : forall h h', (forall x, In x h' -> In (fst x) (map fst h)) -> coplan h' (rel_all h).
 Proof.
-  intros st Hin l w EK rho R1 R2. pose proof (edges_ok st Hin) as K. unfold acq_site_ok in K. rewrite EK in K.
-  apply sacq_sound with (facts := s_facts st); auto.
-  (* the last link of the chain is the request itself *)
-  assert (G : forall rest h, chain_ok (s_facts st) h (rest ++ [(l, w)]) = true -> sacq_ok (s_facts st) (h ++ rest) l = true).
-  { induction rest as [|x rest IH]; intros h C; cbn in C.
-    - rewrite app_nil_r. apply andb_true_iff in C. tauto.
-    - apply andb_true_iff in C. destruct C as [_ C]. specialize (IH _ C). rewrite <- app_assoc in IH. exact IH. }
-  apply (G (s_held st) []). exact K.
+  induction h as [|[l w] h IH]; intros h' A; cbn.
+  - destruct h' as [|x h']; auto. destruct (A x (or_introl eq_refl)).
+  - apply IH. intros x Hx. unfold remove_lock in Hx. apply filter_In in Hx. destruct Hx as [Hx Hn].
+    destruct (A x Hx) as [E|E]; auto. cbn in E. subst l. apply negb_true_iff in Hn.
+    rewrite (proj2 (clock_eqb_spec (fst x) (fst x)) eq_refl) in Hn. discriminate.
 Qed.
+
+Lemma gplan_acts : forall acts h tail,
+  (forall a, In a acts -> match a with Acq _ _ | Rel _ => True | _ => False end) ->
+  cgplan (mrun h acts) [] tail -> cgplan h [] (acts ++ tail).
+Proof.
+  induction acts as [|a acts IH]; intros h tail A H; cbn in *; auto.
+  assert (A' : forall b, In b acts -> match b with Acq _ _ | Rel _ => True | _ => False end) by (intros; apply A; auto).
+  pose proof (A a (or_introl eq_refl)) as Ha.
+  destruct a; try contradiction; (split; [intros c []|]); apply IH; auto.
+Qed.
+
+Lemma vacts_lock_only : forall rho p a, In a (vacts rho p) -> match a with Acq _ _ | Rel _ => True | _ => False end.
+Proof. intros rho p a H. unfold vacts in H. apply in_map_iff in H. destruct H as [x [<- _]]. destruct x; cbn; auto. Qed.
+
+(** the symbolic nodes a plan mentions, and what a valuation has to respect about them *)
+Fixpoint path_nodes (p : list pact) : list snode :=
+  match p with
+  | [] => []
+  | PA l _ _ :: r => match snode_of l with Some n => n :: path_nodes r | None => path_nodes r end
+  | PR _ :: r => path_nodes r
+  end.
+
+Definition respects (rho : snode -> node) (p : list pact) : Prop :=
+  (forall a b, In a (path_nodes p) -> In b (path_nodes p) -> below a b = true -> length (rho a) < length (rho b)) /\
+  (forall a b, In (a, b) (path_facts p) -> rho a <> rho b).
+
+Lemma path_in_nodes : forall p q, (forall n, In n (path_nodes p) -> In n q) -> path_in_D (fun n => In n q) p.
+Proof.
+  induction p as [|a p IH]; intros q H; cbn; auto. destruct a as [l w f|l]; cbn in *.
+  - split.
+    + intros n E. apply H. rewrite E. left; auto.
+    + apply IH. intros n Hn. apply H. destruct (snode_of l); auto. right; auto.
+  - apply IH; auto.
+Qed.
+
+(** the thread fragment of a site: its plan, (the call), then releasing whatever is held *)
+Definition site_thread (rho : snode -> node) (st : site) : list (act clock ccall) :=
+  let p := full_path st in
+  vacts rho p ++
+  match site_call rho st with Some c => [Enter c; Exit c] | None => [] end ++
+  rel_all (vh rho (pheld p)).
+
+(** C16: every site's thread fragment obeys discipline D — from the plans alone *)
+Theorem site_thread_oplan : forall st, In st sites -> carries st = true ->
+  forall rho, respects rho (full_path st) -> coplan [] (site_thread rho st).
+Proof.
+  intros st Hin C rho [R1 R2]. pose proof (edges_ok st Hin) as K. unfold acq_site_ok in K. rewrite C in K. cbn in K.
+  unfold site_thread. apply (path_oplan rho (fun n => In n (path_nodes (full_path st))) R1 (full_path st) [] _ K); auto.
+  - constructor.
+  - intros x [].
+  - apply path_in_nodes; auto.
+  - intros _. fold (pheld (full_path st)).
+    assert (G : forall h, coplan h (rel_all h)) by (intros h; apply oplan_rel_all; intros x Hx; apply in_map; auto).
+    destruct (site_call rho st); cbn; apply G.
+Qed.
+
+(** C07: the fragment keeps the call inside its guard, and the guard is what the plan holds there *)
+Theorem site_thread_gplan : forall st, In st sites -> forall rho c, site_call rho st = Some c ->
+  respects rho (full_path st) -> cgplan [] [] (site_thread rho st).
+Proof.
+  intros st Hin rho c Hc [R1 R2].
+  assert (C : carries st = true) by (unfold site_call in Hc; unfold carries; destruct (s_kind st); try discriminate; auto).
+  assert (FP : full_path st = s_path st) by (unfold site_call in Hc; unfold full_path; destruct (s_kind st); try discriminate; auto).
+  pose proof (edges_ok st Hin) as K. unfold acq_site_ok in K. rewrite C in K. cbn in K.
+  unfold site_thread. rewrite Hc. apply gplan_acts; [apply vacts_lock_only|].
+  change (@nil (clock * bool)) with (vh rho []) at 1.
+  assert (HD : held_in_D (fun n => In n (path_nodes (full_path st))) []) by (intros x []).
+  rewrite (path_mrun rho (fun n => In n (path_nodes (full_path st))) R1 (full_path st) [] K (NoDup_nil _) HD (path_in_nodes _ _ (fun n H => H)) R2).
+  fold (pheld (full_path st)).
+  assert (G : c_guard c = vh rho (pheld (full_path st))).
+  { unfold site_call in Hc. rewrite FP. destruct (s_kind st); try discriminate. inversion Hc; reflexivity. }
+  cbn. split; [intros x []|]. split.
+  - intros x [<-|[]]. rewrite G. intros y Hy; exact Hy.
+  - unfold remove_call. cbn. rewrite ccall_eqb_refl. cbn. apply gplan_rels.
+Qed.
+
+(** every acquisition site: the request itself is permitted under every respectful valuation *)
+Theorem site_requests_sound : forall st, In st sites -> forall l w, s_kind st = KAcq l w ->
+  forall rho, respects rho (full_path st) ->
+  coplan [] (site_thread rho st).
+Proof.
+  intros st Hin l w EK rho R. apply site_thread_oplan; auto. unfold carries. rewrite EK. reflexivity.
+Qed.
+
+(** C16, end to end: any number of threads, each running the fragment of some site of the table under
+    its own valuation of the symbolic names: no reachable state has every unfinished thread blocked *)
+Theorem sites_no_deadlock : forall (ths : list (site * (snode -> node))),
+  (forall st rho, In (st, rho) ths -> In st sites /\ carries st = true /\ respects rho (full_path st)) ->
+  forall s, creachable (map (fun x => site_thread (snd x) (fst x)) ths) s ->
+  (exists i t, nth_error s i = Some t /\ rest t <> []) ->
+  ~ (forall i t, nth_error s i = Some t -> rest t <> [] -> blocked clock ccall s i).
+Proof.
+  intros ths H s Hr. apply (no_deadlock clock clock_eqb clock_eqb_spec ccall ccall_eqb crank RenameMu cchildish (map (fun x => site_thread (snd x) (fst x)) ths)); auto.
+  intros p Hp. apply in_map_iff in Hp. destruct Hp as [[st rho] [<- Hin]]. destruct (H st rho Hin) as [A [B C]].
+  cbn. apply site_thread_oplan; auto.
+Qed.
+
+(** C07, end to end: threads running site fragments; two documented-exclusive calls never overlap *)
+Theorem sites_contract : forall (ths : list (site * (snode -> node))),
+  (forall st rho, In (st, rho) ths -> In st sites /\ respects rho (full_path st) /\ exists c, site_call rho st = Some c) ->
+  forall s, creachable (map (fun x => site_thread (snd x) (fst x)) ths) s ->
+  forall i j ti tj c1 c2, i <> j -> nth_error s i = Some ti -> nth_error s j = Some tj ->
+    In c1 (inside ti) -> In c2 (inside tj) -> cprovides c1 -> cprovides c2 -> conflicts c1 c2 -> False.
+Proof.
+  intros ths H s Hr. apply (contract (map (fun x => site_thread (snd x) (fst x)) ths)); auto.
+  intros p Hp. apply in_map_iff in Hp. destruct Hp as [[st rho] [<- Hin]]. destruct (H st rho Hin) as [A [B [c C]]].
+  cbn. eapply site_thread_gplan; eauto.
+Qed.
+
+(** the valuation hypotheses are satisfiable for every site of the table: a canonical valuation
+    (fidRef names as distinct deep paths) respects every plan *)
+Fixpoint rho_ex (n : snode) : node :=
+  match n with
+  | NOf r => ["r3"; "r2"; "r1"; r]
+  | NChild m x => List.app (rho_ex m) [x]
+  | NParent m => removelast (rho_ex m)
+  | NMaybeParent m => "mp" :: rho_ex m
+  | NTree => []
+  | NVar x => ["v3"; "v2"; "v1"; x]
+  end.
+
+Definition respects_b (rho : snode -> node) (p : list pact) : bool :=
+  forallb (fun a => forallb (fun b => negb (below a b) || Nat.ltb (length (rho a)) (length (rho b))) (path_nodes p)) (path_nodes p)
+  && forallb (fun f => negb (node_eqb (rho (fst f)) (rho (snd f)))) (path_facts p).
+
+Lemma respects_b_sound : forall rho p, respects_b rho p = true -> respects rho p.
+Proof.
+  intros rho p H. unfold respects_b in H. apply andb_true_iff in H. destruct H as [H1 H2]. split.
+  - intros a b Ha Hb Hab. rewrite forallb_forall in H1. specialize (H1 a Ha). rewrite forallb_forall in H1.
+    specialize (H1 b Hb). rewrite Hab in H1. cbn in H1. apply Nat.ltb_lt in H1. exact H1.
+  - intros a b Hab E. rewrite forallb_forall in H2. specialize (H2 _ Hab). cbn in H2. rewrite E in H2.
+    unfold node_eqb in H2. destruct (list_eq_dec string_dec (rho b) (rho b)); [discriminate|congruence].
+Qed.
+
+Lemma canonical_respects_b : forall st, In st sites -> respects_b rho_ex (full_path st) = true.
+Proof. apply all_sites. vm_compute. reflexivity. Qed.
+
+Theorem canonical_respects : forall st, In st sites -> respects rho_ex (full_path st).
+Proof. intros st H. apply respects_b_sound. apply canonical_respects_b; auto. Qed.
